@@ -249,7 +249,7 @@ int main(int argc, char **argv) {
     // "giant": the same at 30 bits, where the unchanged encoder transiently needs 8-16 GiB (entropy table indexed by a
     // residual of up to 2^32): a handful of cases per run, one at a time machine-wide (file lock), 24 GiB cap.
     const bool giant = !c12 && r.below(6000) == 0;
-    const bool smooth_hi = giant || (!c12 && r.below(12) == 0);
+    const bool smooth_hi = giant || (!c12 && r.below(thorough ? 48 : 12) == 0);  // each one costs a child process and up to 512 MiB of page faults
 #endif
     const bool point_cloud = !smooth_hi && r.below(3) == 0;
     vf::Topo topo;
